@@ -458,7 +458,7 @@ fn build_spaces(thorough: bool) -> Vec<Sub> {
     });
     // large templates: every declaration-site kind repeated until the counters of generated identifiers have passed their
     // first reserved words (if / in / do after about 2200 declarations; var near 179 000 in the thorough tier); the parser
-    // fuel does not tick in the code generator, the 30 s watchdog does
+    // fuel does not tick in the code generator, the 30 s CPU-time watchdog does
     const LARGE_KINDS: &[&str] = &[
         "<a>x</a>",
         "<a wx:if=\"{{x}}\"/>",
@@ -590,7 +590,7 @@ pub fn explore(thorough: bool, result_path: &str) {
         rep.evaluations = i;
         rep.violation(Violation {
             fingerprint: format!("hang|{}", case.to_json()),
-            what: format!("no answer within 30 s (parser fuel was not exhausted: the loop is outside the parser cursor) on {}", case.to_json()),
+            what: format!("no answer within 30 s of CPU time (parser fuel was not exhausted: the loop is outside the parser cursor) on {}", case.to_json()),
             replay: json!({"engine": "c01", "case": case.to_json(), "class": "hang"}),
         });
         let res = rep.to_result("C01", "aborted by the watchdog", json!({}), false, &[], Map::new());
@@ -674,7 +674,7 @@ pub fn explore(thorough: bool, result_path: &str) {
         bound,
         true,
         &["rustc catch_unwind observes every panic; aborts are observed by ./check as a dead engine and re-run singly",
-          "fuel hook counts every parser cursor primitive (hooks H1/H2); loops outside the cursor are caught by the 30 s watchdog"],
+          "fuel hook counts every parser cursor primitive (hooks H1/H2); loops outside the cursor are caught by the 30 s CPU-time watchdog"],
         extra,
     );
     write_result(result_path, &res);
@@ -764,15 +764,34 @@ pub fn run_in_child(spec: &Value, tag: &str) -> Result<(Option<(String, String)>
     std::fs::write(&file, serde_json::to_vec(spec).unwrap()).map_err(|e| e.to_string())?;
     let exe = std::env::current_exe().map_err(|e| e.to_string())?;
     let mut ch = std::process::Command::new(exe).arg("c01-child").arg(&file).stdout(std::process::Stdio::piped()).stderr(std::process::Stdio::null()).spawn().map_err(|e| e.to_string())?;
+    // The watchdog reads the CPU time the child has consumed (utime + stime of /proc/<pid>/stat), not the wall clock: the verdict
+    // "hang" must not depend on how busy the machine is. A child that stays below the CPU limit but does not answer within the
+    // (much larger) wall limit is a machinery problem, not a verdict.
+    let cpu_limit = child_cpu_limit_secs();
     let t0 = std::time::Instant::now();
+    let pid = ch.id();
+    let cpu_secs = || -> Option<f64> {
+        let st = std::fs::read_to_string(format!("/proc/{}/stat", pid)).ok()?;
+        let rest = &st[st.rfind(')')? + 2..];
+        let f: Vec<&str> = rest.split(' ').collect();
+        let ut: f64 = f.get(11)?.parse().ok()?;
+        let stt: f64 = f.get(12)?.parse().ok()?;
+        Some((ut + stt) / 100.0)
+    };
     let status = loop {
         match ch.try_wait().map_err(|e| e.to_string())? {
             Some(st) => break Some(st),
             None => {
-                if t0.elapsed().as_secs() > 120 {
+                if cpu_secs().map_or(false, |c| c > cpu_limit as f64) {
                     let _ = ch.kill();
                     let _ = ch.wait();
                     break None;
+                }
+                if t0.elapsed().as_secs() > cpu_limit * 20 {
+                    let _ = ch.kill();
+                    let _ = ch.wait();
+                    let _ = std::fs::remove_file(&file);
+                    return Err(format!("child {} used less than {} s of CPU time but did not answer within {} s of wall time", tag, cpu_limit, cpu_limit * 20));
                 }
                 std::thread::sleep(std::time::Duration::from_millis(20));
             }
@@ -780,7 +799,7 @@ pub fn run_in_child(spec: &Value, tag: &str) -> Result<(Option<(String, String)>
     };
     let _ = std::fs::remove_file(&file);
     let Some(status) = status else {
-        return Ok((Some(("hang".into(), "no answer within 120 s".into())), Value::Null));
+        return Ok((Some(("hang".into(), format!("no answer within {} s of CPU time", cpu_limit))), Value::Null));
     };
     if !status.success() {
         use std::os::unix::process::ExitStatusExt;
@@ -797,8 +816,21 @@ pub fn run_in_child(spec: &Value, tag: &str) -> Result<(Option<(String, String)>
     Ok((failure, v))
 }
 
+/// sizes of the flat families. The quick tier stops at 3*10^4 units: the slowest family (an if / elif chain, whose generation is
+/// quadratic in the number of branches) needs about 3 s of CPU time there and about 40 s at 10^5, too close to any fixed limit.
 pub fn flat_sizes(thorough: bool) -> &'static [usize] {
-    if thorough { &[30_000, 100_000, 300_000] } else { &[30_000, 100_000] }
+    if thorough { &[30_000, 100_000, 300_000] } else { &[10_000, 30_000] }
+}
+
+/// CPU-time limit of one child process (VERIF_CHILD_CPU_LIMIT overrides): 40 x the slowest case of the quick tier, and in the thorough
+/// tier 3 x the slowest case that answers at all (the 3*10^5 if / elif chain aborts; 10^5 needs about 40 s)
+pub fn child_cpu_limit_secs() -> u64 {
+    if let Ok(v) = std::env::var("VERIF_CHILD_CPU_LIMIT") {
+        if let Ok(n) = v.parse() {
+            return n;
+        }
+    }
+    if std::env::var("VERIF_TIER").map_or(false, |t| t == "thorough") { 1800 } else { 120 }
 }
 
 /// explore the flat families (sequentially over sizes, kinds in parallel)
